@@ -107,7 +107,7 @@ impl CssSelectorSet {
         &self,
         other: SelectorSet,
         backref: &CssSelectorSet,
-    ) -> Self {
+    ) -> Result<Self, ParseError> {
         let mut parts = other
             .s
             .into_iter()
@@ -115,11 +115,11 @@ impl CssSelectorSet {
                 if o.has_backref() {
                     o.resolve_ref(backref)
                 } else {
-                    self.s.s.iter().map(|s| s.nest(&o)).collect()
+                    Ok(self.s.s.iter().map(|s| s.nest(&o)).collect())
                 }
             })
-            .map(Vec::into_iter)
-            .collect::<Vec<_>>();
+            .map(|v| v.map(Vec::into_iter))
+            .collect::<Result<Vec<_>, _>>()?;
 
         let mut result = Vec::new();
         let mut empty = false;
@@ -133,9 +133,9 @@ impl CssSelectorSet {
             }
         }
 
-        Self {
+        Ok(Self {
             s: SelectorSet { s: result },
-        }
+        })
     }
 
     pub(crate) fn replace(
